@@ -168,6 +168,13 @@ func (c *context) getActionMethods() map[string][]*actionMethod {
 			c.EmitBounds = true
 			continue
 		}
+		if reservedMethodNames[goMethod.Name()] {
+			c.Errs.Errorf(
+				goMethod.Pos(),
+				"method name %v is reserved for the generated parser",
+				goMethod.Name())
+			continue
+		}
 		rule := ruleFromMethod(goMethod.Name())
 		if rule == "" {
 			continue
@@ -203,6 +210,18 @@ func (c *context) getActionMethods() map[string][]*actionMethod {
 		return nil
 	}
 	return actionMethods
+}
+
+// reservedMethodNames are the methods the generated parser.gen.go declares on
+// the parser type. The placeholder used to type-check the package does not
+// have them, so a clash would only show when compiling the generated code.
+var reservedMethodNames = map[string]bool{
+	"parse":            true,
+	"recoverLookahead": true,
+	"_readToken":       true,
+	"_recover":         true,
+	"_makeError":       true,
+	"_act":             true,
 }
 
 // checkOnBoundsSignature verifies that _onBounds can be called the way the
